@@ -46,7 +46,9 @@ class Gen:
         return out
 
     def register(self, sid):
-        self.hist.append((REG, [sid]))
+        # the path by which the storage is made known: register, register_with_storage, ReadStorage::setup,
+        # WriteStorage::setup, or a plain resource insert followed by one of the two setups
+        self.hist.append((REG, [sid] if self.rng.random() < 0.5 else [sid, self.rng.randint(0, 5)]))
         if sid not in self.regs:
             self.regs.append(sid)
 
